@@ -7,14 +7,14 @@ export GOFLAGS=-mod=mod GOPROXY=off GOSUMDB=off GOTOOLCHAIN=local
 wt="/var/tmp/sc-$$"
 git -C /repo worktree add -q "$wt" HEAD || exit 9
 trap 'git -C /repo worktree remove --force "$wt" 2>/dev/null' EXIT
-cp "$demo" "$wt/$pkgdir/zz_seed_demo_test.go"
+if [ -d "$demo" ]; then for f in "$demo"/*_test.go; do cp "$f" "$wt/$pkgdir/zz_seed_$(basename "$f")"; done; else cp "$demo" "$wt/$pkgdir/zz_seed_demo_test.go"; fi
 echo "== demo WITHOUT change (must pass)"
 (cd "$wt" && go test -count=1 -vet=off -run "$run" "./$pkgdir/" 2>&1 | tail -3)
 git -C "$wt" apply "$out/patch.diff" || { echo "patch does not apply"; exit 8; }
 echo "== build with change"
-(cd "$wt" && go build ./... 2>&1 | grep -v "snowman\|avalanchego\|x/exp" | tail -3; echo "build rc=${PIPESTATUS[0]}")
+(cd "$wt" && go build $(go list ./... | grep -v consensus/snowman) 2>&1 | tail -3; echo "build(all but snowman, which does not build on the unchanged tree either) rc=${PIPESTATUS[0]}")
 echo "== demo WITH change (must fail)"
 (cd "$wt" && go test -count=1 -vet=off -run "$run" "./$pkgdir/" 2>&1 | tail -4)
-rm -f "$wt/$pkgdir/zz_seed_demo_test.go"
+rm -f "$wt/$pkgdir"/zz_seed_*
 echo "== existing tests with change (must pass): $pkgs"
 (cd "$wt" && go test -count=1 -vet=off $pkgs 2>&1 | tail -6)
